@@ -8,7 +8,25 @@ LEVEL_TEXT = ("seeded search over schedules, fault sequences and generated workl
               "simulator running the shipped code; every run is checked by oracles during the run and over its "
               "recorded history. A clean batch is evidence, not proof: exploration is the honest level.")
 
+GW = 'Trusts: the gw world (DESIGN §4): shipped handler chain, controller, informer, probing, transports and dispatcher run unmodified over in-bubble pipes (hooks H1, H2, H4); clients, upstreams and the object store are stubs; plain HTTP/1.1 only; between two driver steps goroutines run under a single-P Go runtime (the seed decides every stimulus, not statement interleavings); net/http select coins under connection-teardown faults are not owned by the tape (replays are retried, see DESIGN §2.7). '
+
 CHECKS = {
+ "C01": dict(design="§C01", technique="deterministic simulation: seeded (policy list, request) generation against a running simulated gateway with reloads; reference matcher written from the documentation as oracle; policy observed through disjoint upstream subsets",
+   note=GW+"The deciding power for rule semantics is seeded input generation; the simulation contributes history independence and never-forwarded-when-unmatched at the system boundary."),
+ "C02": dict(design="§C02", technique="deterministic simulation: seeded raw-HTTP header combinations through the real filter chain and impersonating transport; oracle evaluated on what the stub upstream actually received",
+   note=GW+"Reference identity computed from the property text (kube impersonation rules for system:authenticated). No websocket/upgrade traffic."),
+ "C03": dict(design="§C03", technique="deterministic simulation with fault injection: seeded interleaving of requests (held at stubs), spec updates, health flaps and clock advances; boundary snapshots of the gateway's own view as oracle",
+   note=GW+"A forwarded request is judged against the state before and after the step it was picked in; one stray probe per disable (a probe already in flight or queued) is accepted."),
+ "C04": dict(design="§C04", technique="deterministic simulation: seeded raw-HTTP requests and scripted upstream responses compared end to end; gateway-terminated cases provoked through state; separate fault configuration",
+   note=GW+"Decoded paths are compared; malformed query pairs are outside the comparison; the HTTP layer's own additions are allow-listed from a calibration run. What the client sees after a mid-stream upstream cut is recorded as an observation only."),
+ "C10": dict(design="§C10", technique="deterministic simulation with fault injection: seeded histories of create/update/delete with colliding names through real admission and controller, watch streams held back (admission/controller lag); invariants at every boundary and convergence clauses at stable points; TLS providers called per SNI",
+   note=GW+"TLS handshakes are not simulated. One known finding (circular name conflict after admission was bypassed) is listed in known_findings.json."),
+ "C11": dict(design="§C11", technique="deterministic simulation with fault injection: seeded object histories over every hot-reloadable section incl. requeues of superseded versions; fresh twin gateway in the same bubble as oracle",
+   note=GW+"Compared through public accessors and routing/limiter probes; client connection settings excluded as stated."),
+ "C12": dict(design="§C12", technique="deterministic simulation with fault injection: seeded request sequences alternating hosts with identical credentials, per-cluster answers changing over time, TTL-sized clock gaps, unreachable clusters, delete/re-create, alias moves; every forwarded identity and review attributed to the host's own cluster",
+   note=GW+"Cached answers may be as old as the longest TTL (+50 ms)."),
+ "C15": dict(design="§C15", technique="deterministic simulation: requests parked in every phase of their life (review, before headers, mid-stream), one seeded removal, bounded-liveness oracle on the fake clock (2 s), bystander progress checks",
+   note=GW+"'Promptly' = 2 simulated seconds; probing must stop within one interval + 1.5 s."),
  "C06": dict(
    design="§C06",
    technique="deterministic simulation on a fake clock (testing/synctest): seeded arrival processes against the real local token-bucket stack; pairwise window oracle and idle-refill oracle over the recorded (time, result) list",
